@@ -28,6 +28,7 @@ def step (line : String) : String :=
   | "ps" :: rest => Driver.PubSub.run rest
   | "rr" :: rest => Driver.ReqRep.run rest
   | "tls" :: rest => Driver.Tls.run rest
+  | "tlsd" :: rest => Driver.Tls.runDefault rest
   | "rec" :: rest => Driver.KeepAlive.run rest
   | "rq" :: rest => Driver.ReqClient.run rest
   | "rqstallc" :: rest => Driver.ReqClient.runStallC rest
